@@ -79,7 +79,8 @@ class CacheLocker(object):
         active_locks = False
         cur.execute("SELECT * from cache_locks where cache_name = ? ORDER BY created", (cache_name, ))
 
-        for lock in cur:
+        # (read all rows first: removing the lock of a dead process re-uses the cursor)
+        for lock in cur.fetchall():
             if not active_locks and lock['cache_name'] == cache_name and lock['pid'] == pid:
                 # we are waiting and it is out turn
                 return True
